@@ -60,6 +60,7 @@ Definition args_okb (c : case) : bool :=
   | 33 => nvals c 1 && std_widthb (arg c 0)
   | 34 | 35 => nvals c 2
   | 37 => nvals c 2 && match c_vals c with a :: b :: _ => same_typeb a b | _ => false end
+  | 38 => nvals c 1 && (1 <=? arg c 2)
   | 40 => nvals c 1 && (arg c 1 <=? 1)
   | 41 => nvals c 1 && (arg c 0 <=? 1)
   | 42 => nvals c 1
